@@ -93,6 +93,26 @@ def run(spec, rec):
                 rec.close("weights-exact", float(np.max(np.abs(np.asarray(c) - ref))), 1e-10,
                           site="_cached_projection", tags={"n": n, "m": m, "hits": hits})
                 rec.close("weights-sum-one", abs(float(np.sum(c)) - 1), 1e-10, site="_cached_projection")
+            # masks at large sizes, where weights inside the hypergeometric support get as small as 1e-59: entry i reaches entry j
+            # iff max(0, m-(n-i)) <= j <= min(i, m), however small the weight
+            if m < n:
+                data = rng.uniform(0.5, 2, n + 1) * (rng.random(n + 1) < 0.8)
+                mk = np.zeros(n + 1, dtype=bool)
+                mk[hits] = True
+                if ci % 2:
+                    mk |= rng.random(n + 1) < 0.03
+                fsl = Spectrum(data, mask=mk, mask_corners=False)
+                okp, pl = rec.noraise("project-returns", lambda: fsl.project([m]), site="Spectrum.project", tags={"large": True})
+                if okp:
+                    exp = np.zeros(m + 1, dtype=bool)
+                    for i in np.nonzero(mk)[0]:
+                        exp[max(0, m - (n - int(i))):min(int(i), m) + 1] = True
+                    rec.check("mask-exact", np.array_equal(np.asarray(pl.mask), exp), site="Spectrum.project", tags={"ndim": 1, "large": True},
+                              observed={"n": n, "m": m, "masked": np.nonzero(mk)[0], "got": np.nonzero(np.asarray(pl.mask))[0], "expected": np.nonzero(exp)[0]})
+                    mid = int(rng.integers(m, n + 1))
+                    ok2, p2 = rec.noraise("project-returns", lambda: fsl.project([mid]).project([m]), site="Spectrum.project", tags={"large": True})
+                    if ok2:
+                        rec.check("two-stage-mask", np.array_equal(np.asarray(p2.mask), np.asarray(pl.mask)), site="Spectrum.project", tags={"ndim": 1, "large": True})
     elif kind == "nd":
         for ci in range(spec["n"]):
             rng = rng_for(seed, "C08nd", spec["b"], ci)
@@ -100,6 +120,16 @@ def run(spec, rec):
             max_n = {1: 30, 2: 12, 3: 7, 4: 5}[ndim]
             folded = bool(rng.random() < 0.3)
             fs = gen.random_spectrum(rng, ndim=ndim, max_n=max_n, min_n=2, folded=False, distinct_sizes=(ndim > 1), dadi=dadi)
+            sparse = bool(rng.random() < 0.4)
+            if sparse:
+                # count data are sparse: masked entries that hold 0, empty frequency classes (a whole slab of zeros with masked
+                # entries in it).  Which entries a projection masks must not depend on the values
+                fs.data[np.asarray(fs.mask)] = 0.0
+                ax = int(rng.integers(ndim))
+                for i in rng.choice(fs.shape[ax], size=int(rng.integers(1, 3)), replace=False):
+                    sl = [slice(None)] * ndim
+                    sl[ax] = int(i)
+                    fs.data[tuple(sl)] = 0.0
             ns = [s - 1 for s in fs.shape]
             to = [int(rng.integers(1, n + 1)) for n in ns]
             mid = [int(rng.integers(t, n + 1)) for t, n in zip(to, ns)]
@@ -107,7 +137,7 @@ def run(spec, rec):
                     "nmasked": int(fs.mask.sum()), "labels": fs.pop_ids is not None}
             if not rec.case("nd%d-%d" % (spec["b"], ci), desc, nontrivial=any(t < n for t, n in zip(to, ns))):
                 continue
-            tags = {"ndim": ndim, "folded": folded}
+            tags = {"ndim": ndim, "folded": folded, "sparse": sparse}
             site = "Spectrum.project"
             src = fs.fold() if folded else fs
             ok, p = rec.noraise("project-returns", lambda: src.project(to), site=site, tags=tags)
@@ -202,7 +232,7 @@ def run(spec, rec):
                 for i in range(n + 1):
                     if not rec.case("sm-%d-%d-%d" % (n, m, i), {"n": n, "m": m, "masked": i}, nontrivial=(m < n)):
                         continue
-                    fs = Spectrum(np.arange(1.0, n + 2), mask_corners=False)
+                    fs = Spectrum(np.arange(1.0, n + 2) * (0.0 if (n + m + i) % 2 else 1.0), mask_corners=False)
                     fs.mask[i] = True
                     p = fs.project([m])
                     lo, hi = max(0, m - (n - i)), min(i, m)
